@@ -5,6 +5,7 @@ series orders, the integration grid/rule/threads and the imperfection data; the 
 model.  integrate/integratev.pyx: the points are handed to the integrand in chunks that partition range(npts) for every
 thread count (z3), and both point generators return betas == 1 (so that out = beta*out + alpha*f is a plain weighted sum).
 """
+import itertools
 import numpy as np
 import z3
 
@@ -57,29 +58,42 @@ def check_model(led, model):
                  ni_num_cores=integer('cores'), ni_method='simps2d', c0=Opaque('c0'), m0=integer('m0'), n0=integer('n0'),
                  E11=real('E11'), nu=real('nu'), h=real('h'))
     it.facts += [to_z3(real('r2')) > 0, to_z3(real('L')) > 0, to_z3(real('alphadeg')) > 0, to_z3(real('alphadeg')) < 90, to_z3(shims.PI) > 3]
-    for what in ('kT', 'fint', 'fint-full'):
+    cu_reduced = cu
+    cu_complete = np.array([real('c%d' % k) for k in range(size)], dtype=object)
+    for what, complete in itertools.product(('kT', 'fint', 'fint-full'), (False, True)):
         del calls[:]
+        cu0 = cu_complete if complete else cu_reduced
 
         def run():
             del calls[:]
+            cu = cu0.copy()
             cc = PC.new_cc(it, **attrs)
             it.call(it.getattr(cc, '_rebuild'), [], {})
             it.setattr(cc, 'k0', k0)
             it.setattr(cc, 'F', Fmat)
             if what == 'kT':
                 r_ = it.call(it.getattr(cc, 'calc_kT'), [cu], dict(inc=inc, silent=True))
-                return cc, r_, list(calls)
+                return cc, r_, list(calls), cu
             # the grid multiplier m is symbolic; 'fint-full' asks for the vector of all amplitudes (return_u=False)
             r_ = it.call(it.getattr(cc, 'calc_fint'), [cu], dict(inc=inc, silent=True, m=integer('mgrid'), **({'return_u': False} if what == 'fint-full' else {})))
-            return cc, r_, list(calls)
+            return cc, r_, list(calls), cu
         res = it.explore(run)
         func = NLM if what == 'kT' else FI
         for path, out in res:
-            name = '%s[%s%s]' % (func, model, ',return_u=False' if what == 'fint-full' else '')
+            name = '%s[%s%s%s]' % (func, model, ',return_u=False' if what == 'fint-full' else '', ',complete amplitude vector given' if complete else '')
             if out[0] == 'raise':
                 led.fail(name + '/no-exception', func, {'raises': out[1].tname, 'args': [str(a)[:100] for a in out[1].eargs]}, signature='raise:' + out[1].tname)
                 continue
-            cc, ret, pcalls = out[1]
+            cc, ret, pcalls, cu_after = out[1]
+            # frame: the caller's amplitude vector is an input; evaluating at it must not change it
+            changed = [k for k in range(len(cu0)) if not (isinstance(cu_after[k], P) and K.compare(cu_after[k], cu0[k])[0])] if len(cu_after) == len(cu0) else ['length']
+            fname_ = name + '/the amplitude vector of the caller is unchanged'
+            if changed:
+                led.fail(fname_, func, {'differences': ['entry %s of the caller\'s vector is %s after the call, was %s' % (k, cu_after[k] if k != 'length' else len(cu_after), cu0[k] if k != 'length' else len(cu0)) for k in changed[:4]]},
+                         signature='frame-c', replay=replay_caller_vector(what))
+            else:
+                led.ok(fname_, func)
+            cu = cu0.copy()
             gen = model[4:] if model.startswith('iso_') else model
             nl_own = db[model]['non-linear']
             nl_gen = db[gen]['non-linear']
@@ -147,6 +161,25 @@ def check_model(led, model):
                 led.fail('%s/%s' % (name, clause), func, {'differences': probs[:8]}, signature=what.split('-')[0])
             else:
                 led.ok('%s/%s' % (name, clause), func)
+
+
+def replay_caller_vector(what):
+    from .. import pyreplay, shell_oracle as O
+    script = O.COMMON + '''
+cc = make(payload); cc.pdC = True; cc.pdT = True; cc.uTM = 0.3; cc.thetaTdeg = 0.2
+cc._calc_linear_matrices()
+rs = np.random.RandomState(3)
+c = rs.uniform(-1, 1, cc.get_size())
+before = c.copy()
+if payload['what'] == 'kT':
+    cc.calc_kT(c, inc=0.5, silent=True)
+else:
+    cc.calc_fint(c, inc=0.5, silent=True, **({'return_u': False} if payload['what'] == 'fint-full' else {}))
+out = {'max_change_of_the_callers_vector': float(abs(c - before).max()), 'changed_entries': [int(k) for k in np.nonzero(c != before)[0]]}
+'''
+    pay = dict(m1=3, m2=2, n2=2, r2=250., H=500., alphadeg=20., model='clpt_donnell_bc1', laminaprop=[123.55e3, 8.708e3, 0.319, 5.695e3, 5.695e3, 5.695e3], stack=[30, -30, 45], plyt=0.125, what=what)
+    r = pyreplay.run_real(script, pay, timeout=600)
+    return {'reproduced': bool(r.get('changed_entries')), 'input': pay, 'result': r, 'real_function': 'ConeCyl.calc_kT / ConeCyl.calc_fint'}
 
 
 def check_integratev(led):
